@@ -77,7 +77,7 @@ def _gen(ctx, n, tag):
 
 # ---------------------------------------------------------------- L1
 def correspondence(ctx):
-    progs = _gen(ctx, ctx.n(80, 2400), "L1")
+    progs = _gen(ctx, ctx.n(80, 1000), "L1")
     dis = []
     cases, meta = [], []
     for text, info, st, ins in progs:
@@ -161,7 +161,7 @@ def _explain(st, ins):
 
 
 def search(ctx, deep=False):
-    n = ctx.n(56, 2000) * (3 if deep else 1)
+    n = ctx.n(56, 800) * (3 if deep else 1)
     progs = _gen(ctx, n, "L2")
     items = []
     # the design-phase probes are part of every search
